@@ -125,7 +125,7 @@ class Real:
         self.urls = urls                      # normalised URL -> token
         self.mgrs = []                        # manager objects by model index
         self.alive = []
-        self.sids = {}
+        self.sids = {srv.url: k for k, srv in enumerate(self.srv)}
         for k, srv in enumerate(self.srv):
             reset_server(srv)
             st = static[k] if k < len(static) else {'d': [], 'f': [], 's': []}
@@ -232,8 +232,7 @@ class Real:
             s = op['s']
             sid = self.sid(s)
             if o == 'addServer':
-                r = mg.add_server(self.srv[s])
-                self.sids[r] = s
+                mg.add_server(self.srv[s])
                 return {'ok': None}
             if o == 'removeServer':
                 mg.remove_server(sid)
@@ -724,7 +723,7 @@ class Gen:
         self.idfam = id_family(rng, nm)
         self.urls = {}
         self.static = [gen_static(rng, self.idfam, self.urls, mode) for _ in range(self.nsrv)]
-        self.nops = rng.randint(6, 26 if thorough else 18)
+        self.nops = rng.randint(8, 30 if thorough else 22)
         self.mgr_ids = []       # index -> id (successfully created)
         self.alive = []
 
@@ -756,7 +755,8 @@ class Gen:
     def next_op(self, snap):
         rng = self.rng
         live = [m for m, a in enumerate(self.alive) if a]
-        if not live or (len(self.mgr_ids) < 6 and rng.random() < 0.06):
+        want_mgrs = 3 if self.mode == 'cross' else 1
+        if not live or (len(self.mgr_ids) < 7 and rng.random() < (0.35 if len(live) < want_mgrs else 0.05)):
             # a new manager: an id of the family not in use by a live manager (restart = same id after drop)
             used = {self.mgr_ids[m] for m in live}
             cand = [i for i in self.idfam if i not in used] or [rand_id(rng)]
@@ -767,67 +767,65 @@ class Gen:
         m = rng.choice(live)
         i = self.mgr_ids[m]
         regs = [r['s'] for mg in snap['mgrs'] if mg['m'] == m for r in mg['regs']]
-        r = rng.random()
-        if not regs or r < 0.05:
-            return {'op': 'addServer', 'm': m, 's': rng.randrange(self.nsrv)}
+        if not regs or rng.random() < 0.05:
+            s = 0 if (self.mode == 'cross' and rng.random() < 0.8) else rng.randrange(self.nsrv)
+            return {'op': 'addServer', 'm': m, 's': s}
         s = rng.choice(regs)
         if rng.random() < 0.02:
             s = rng.choice([x for x in range(self.nsrv + 1) if x not in regs] or [s])
+        st = snap['stores'][s] if s < self.nsrv else {'f': [], 'd': [], 's': []}
+        # weights follow the state: create while there is little, subscribe when both kinds exist, remove what exists
+        nf, nd, ns = len(st['f']), len(st['d']), len(st['s'])
+        w = {
+            'restart': 5 + (6 if self.mode in ('kf1', 'cross') and ns else 0),
+            'removeServer': 4, 'removeAll': 3,
+            'addDest': 16 if nd < 4 else 6,
+            'addFilter': 16 if nf < 4 else 6,
+            'addSubs': (26 if nf and nd else 2),
+            'removeDests': 7 if nd else 1,
+            'removeFilter': 7 if nf else 1,
+            'removeSubs': 9 if ns else 1,
+            'query': 5,
+        }
+        kinds = list(w)
+        r = rng.choices(kinds, weights=[w[k] for k in kinds])[0]
         cps = common.cps
-        if r < 0.09 or (self.mode in ('kf1', 'cross') and rng.random() < 0.1):
+        if r == 'restart':
             # simulated client restart: the object is lost, a new manager with the same id registers again
             return {'op': 'dropMgr', 'm': m, 'restart': True}
-        if r < 0.14:
+        if r == 'removeServer':
             return {'op': 'removeServer', 'm': m, 's': s}
-        if r < 0.17:
+        if r == 'removeAll':
             return {'op': 'removeAll', 'm': m, 'exit': rng.random() < 0.5}
-        if r < 0.33:
+        if r == 'addSubs':
             owned = rng.random() < 0.7
-            raw = rng.choice(URL_POOL[:11]) if rng.random() < 0.85 else rng.choice(URL_POOL)
-            op = {'op': 'addDest', 'm': m, 's': s, 'rawurl': raw, 'url': urltoken(self.urls, raw), 'owned': owned,
-                  'destId': None, 'name': None, 'pt': None}
-            pt = rng.choice(PT_POOL)
-            op['pt'] = None if pt is None else cps(pt)
-            if owned:
-                op['destId'] = cps(rng.choice(SUB_ID_POOL))
-            else:
-                op['name'] = cps(self.perm_name('d', i))
-            if rng.random() < 0.04:
-                op[rng.choice(['destId', 'name'])] = rng.choice([None, cps('zz')])
-            return op
-        if r < 0.49:
-            owned = rng.random() < 0.7
-            op = {'op': 'addFilter', 'm': m, 's': s, 'owned': owned, 'fid': None, 'name': None}
-            if owned:
-                op['fid'] = cps(rng.choice(SUB_ID_POOL))
-            else:
-                op['name'] = cps(self.perm_name('f', i))
-            if rng.random() < 0.04:
-                op[rng.choice(['fid', 'name'])] = rng.choice([None, cps('zz')])
-            return op
-        if r < 0.72:
-            owned = rng.random() < 0.7
-            st = snap['stores'][s] if s < self.nsrv else {'f': [], 'd': [], 's': []}
-            f = self.pick_sub_end(snap, s, 'f', i, owned)
+            if owned and self.mode not in ('kf1', 'cross') and s < self.nsrv and \
+                    not any(marker(c, x[0]) == i for c in 'fd' for x in st[c]):
+                r = rng.choice(['addFilter', 'addDest'])      # nothing of its own to subscribe with yet
+        if r == 'addDest':
+            return self.gen_add_dest(m, s, i)
+        if r == 'addFilter':
+            return self.gen_add_filter(m, s, i)
+        if r == 'addSubs':
+            f, ds = self.pick_sub_ends(snap, s, i, owned)
             rr = rng.random()
-            if rr < 0.2:
+            if rr < 0.15 and owned:
                 sel = None
-            elif rr < 0.8:
-                sel = {'one': self.enc(self.pick_sub_end(snap, s, 'd', i, owned, f))}
+            elif rr < 0.8 or len(ds) < 2:
+                sel = {'one': self.enc(ds[0])}
             else:
-                sel = {'many': [self.enc(self.pick_sub_end(snap, s, 'd', i, owned, f))
-                                for _ in range(rng.randint(0, 3))]}
+                sel = {'many': [self.enc(d) for d in ds]}
             return {'op': 'addSubs', 'm': m, 's': s, 'f': self.enc(f), 'sel': sel, 'owned': owned}
-        if r < 0.79:
+        if r == 'removeDests':
             p = self.pick_removable(snap, s, 'd', i)
             if rng.random() < 0.75:
                 sel = {'one': self.enc(p)}
             else:
                 sel = {'many': [self.enc(self.pick_removable(snap, s, 'd', i)) for _ in range(rng.randint(0, 3))]}
             return {'op': 'removeDests', 'm': m, 's': s, 'sel': sel}
-        if r < 0.86:
+        if r == 'removeFilter':
             return {'op': 'removeFilter', 'm': m, 's': s, 'p': self.enc(self.pick_removable(snap, s, 'f', i))}
-        if r < 0.94:
+        if r == 'removeSubs':
             def one():
                 x = self.pick_removable_sub(snap, s, i)
                 return [self.enc(x[0]), self.enc(x[1])]
@@ -837,6 +835,77 @@ class Gen:
                 sel = {'many': [one() for _ in range(rng.randint(0, 3))]}
             return {'op': 'removeSubs', 'm': m, 's': s, 'sel': sel}
         return {'op': rng.choice(['getOwned', 'getAll']), 'm': m, 's': s, 'which': rng.choice('dfs')}
+
+    def gen_add_dest(self, m, s, i):
+        rng, cps = self.rng, common.cps
+        owned = rng.random() < 0.7
+        raw = rng.choice(URL_POOL[:11]) if rng.random() < 0.85 else rng.choice(URL_POOL)
+        op = {'op': 'addDest', 'm': m, 's': s, 'rawurl': raw, 'url': urltoken(self.urls, raw), 'owned': owned,
+              'destId': None, 'name': None, 'pt': None}
+        pt = rng.choice(PT_POOL)
+        op['pt'] = None if pt is None else cps(pt)
+        if owned:
+            op['destId'] = cps(rng.choice(SUB_ID_POOL))
+        else:
+            op['name'] = cps(self.perm_name('d', i))
+        if rng.random() < 0.04:
+            op[rng.choice(['destId', 'name'])] = rng.choice([None, cps('zz')])
+        return op
+
+    def gen_add_filter(self, m, s, i):
+        rng, cps = self.rng, common.cps
+        owned = rng.random() < 0.7
+        op = {'op': 'addFilter', 'm': m, 's': s, 'owned': owned, 'fid': None, 'name': None}
+        if owned:
+            op['fid'] = cps(rng.choice(SUB_ID_POOL))
+        else:
+            op['name'] = cps(self.perm_name('f', i))
+        if rng.random() < 0.04:
+            op[rng.choice(['fid', 'name'])] = rng.choice([None, cps('zz')])
+        return op
+
+    def pick_sub_ends(self, snap, s, i, owned):
+        """filter and 1..3 destinations for a new subscription.
+        clean / edge streams: no end marked for another id; an owned subscription has at least one end marked for
+        the manager itself.  kf1: owned subscriptions preferably between unmarked ends.  cross: ends marked for
+        other ids preferred.  marker: like clean (the marker-named permanent instances count as 'mine').
+        A few percent of the picks are nonexistent paths in every stream."""
+        rng = self.rng
+        if s >= self.nsrv:
+            return ('nonexistent', 0), [('nonexistent', 0)]
+        st = snap['stores'][s]
+        part = {}
+        for cls in 'fd':
+            allp = [tup(x) for x in st[cls]]
+            part[cls] = ([p for p in allp if marker(cls, p[0]) == i],
+                         [p for p in allp if marker(cls, p[0]) is None],
+                         [p for p in allp if marker(cls, p[0]) not in (None, i)])
+        ghost = {cls: (rng.choice(['nonexistent', PREFIX[cls] + i + ':ghost']), 0) for cls in 'fd'}
+
+        def pick(cls, pools):
+            pool = [p for pl in pools for p in pl]
+            return rng.choice(pool) if pool and rng.random() > 0.04 else ghost[cls]
+        (mf, ff, xf), (md, fd, xd) = part['f'], part['d']
+        n = rng.choice([1, 1, 1, 2, 3])
+        if self.mode == 'cross' and (xf or xd) and rng.random() < 0.6:
+            f = pick('f', [xf, xf, mf, ff]) if xf else pick('f', [mf, ff])
+            ds = [pick('d', [xd, xd, md, fd]) if xd else pick('d', [md, fd]) for _ in range(n)]
+            return f, ds
+        if self.mode == 'kf1' and owned and ff and fd and rng.random() < 0.7:
+            return pick('f', [ff]), [pick('d', [fd]) for _ in range(n)]
+        if owned and self.mode not in ('kf1', 'cross'):
+            # at least one own end per subscription
+            if mf and (not md or rng.random() < 0.5):
+                return pick('f', [mf]), [pick('d', [md, fd]) for _ in range(n)]
+            if md:
+                return pick('f', [mf, ff]), [pick('d', [md]) for _ in range(n)]
+            return ghost['f'], [pick('d', [fd])]           # nothing of its own yet: will be refused (end missing)
+        if not owned:
+            # permanent: mostly unowned ends; sometimes an own end (must be refused)
+            if rng.random() < 0.2:
+                return pick('f', [mf, ff]), [pick('d', [md, fd]) for _ in range(n)]
+            return pick('f', [ff]), [pick('d', [fd]) for _ in range(n)]
+        return pick('f', [mf, ff]), [pick('d', [md, fd]) for _ in range(n)]
 
     @staticmethod
     def enc(p):
@@ -853,34 +922,6 @@ class Gen:
             return PREFIX[cls] + rng.choice([i, i, other]) + ':' + rng.choice(['p', 'x', ''])
         n = rng.choice(plain)
         return n if marker(cls, n) is None else 'PERM:%s' % cls
-
-    def pick_sub_end(self, snap, s, cls, i, owned, f=None):
-        """an end point for a new subscription.  Clean streams: never an instance marked for another id; an
-        owned subscription gets at least one end marked for the manager itself (the other classes of input are
-        generated in the 'kf1' and 'cross' streams)"""
-        rng = self.rng
-        if s >= self.nsrv:
-            return ('nonexistent', 0)
-        allp = [tup(x) for x in snap['stores'][s][cls]]
-        mine = [p for p in allp if marker(cls, p[0]) == i]
-        free = [p for p in allp if marker(cls, p[0]) is None]
-        foreign = [p for p in allp if marker(cls, p[0]) not in (None, i)]
-        r = rng.random()
-        if r < 0.03:
-            return (rng.choice(['nonexistent', PREFIX[cls] + i + ':ghost']), 0)
-        if self.mode == 'cross' and foreign and r < 0.5:
-            return rng.choice(foreign)
-        if self.mode == 'kf1' and owned and free and r < 0.8:
-            return rng.choice(free)
-        if owned and self.mode not in ('kf1', 'cross', 'marker'):
-            # second end: the first one (f) decides whether this one must be the manager's own
-            need_mine = (cls == 'f' and rng.random() < 0.6) or (cls == 'd' and f is not None and marker('f', f[0]) != i)
-            if need_mine:
-                return rng.choice(mine) if mine else (PREFIX[cls] + i + ':ghost', 0)
-        pool = mine + free if (mine or free) else []
-        if not owned and free and rng.random() < 0.8:
-            return rng.choice(free)
-        return rng.choice(pool) if pool else ('nonexistent', 0)
 
     def pick_removable(self, snap, s, cls, i):
         rng = self.rng
@@ -901,7 +942,7 @@ class Gen:
         # subscription with unmarked ends is known from the history only (the oracle's record of real results)
         ok = [x for x in subs if marker('f', x[0][0]) in (None, i) and marker('d', x[1][0]) in (None, i)
               and self.orc.subowner[s].get(x) in (None, i)]
-        if ok and rng.random() < 0.93:
+        if ok and rng.random() < 0.9:
             return rng.choice(ok)
         fs = [tup(x) for x in snap['stores'][s]['f']] or [('nonexistent', 0)]
         ds = [tup(x) for x in snap['stores'][s]['d']] or [('nonexistent', 0)]
@@ -1128,7 +1169,7 @@ def run(run):
         return oracle_only(run)
     rng = run.rng
     n = 16000 if run.thorough else 1600
-    run.rule = ('seeded random histories of 6..18 (thorough 26) manager calls on 1-2 mock WBEM servers (Interop namespace, '
+    run.rule = ('seeded random histories of 8..22 (thorough 30) manager calls on 1-2 mock WBEM servers (Interop namespace, '
                 'the three subscription providers, random static filters/destinations/subscriptions incl. names that look '
                 'like markers) with 1-3 live manager objects whose ids come from one confusable family (regex '
                 'metacharacters, prefixes, case variants, empty, non-ASCII), owned/permanent add_destination/add_filter/'
